@@ -105,8 +105,8 @@ def r3(ctx):
     tab = common.case_table(g)
     some = [k for k, v in tab.items() if any(x.startswith("Option::Some{0: Drawdown::Drawdown{") for x in v)]
     none = [k for k, v in tab.items() if v == ["Option::None{}"]]
-    ctx.check("DrawdownGenerator::generate", some == ["(Try::branch(self.time_peak) is Continue && ne(rust_decimal::Decimal::ZERO, self.drawdown_max))"] and
-              none == ["(Try::branch(self.time_peak) is Continue && eq(rust_decimal::Decimal::ZERO, self.drawdown_max))"] and len(tab) == 3,
+    ctx.check("DrawdownGenerator::generate", some == ["(ne(rust_decimal::Decimal::ZERO, self.drawdown_max) && self.time_peak is Some)"] and
+              none == ["(eq(rust_decimal::Decimal::ZERO, self.drawdown_max) && self.time_peak is Some) || (self.time_peak is None)"] and len(tab) == 2,
               "a record is emitted exactly when a peak exists and a decline actually occurred (drawdown_max != 0)",
               got={k: [x[:80] for x in v] for k, v in tab.items()}, key="nonzero")
     b = ctx.fibody(name="update", self_adt=DG, trait="")
